@@ -37,6 +37,9 @@ func main() {
 	case "selftest":
 		os.Exit(cmdSelftest(os.Args[2:]))
 	default:
+		if f, ok := extraCmds[os.Args[1]]; ok {
+			os.Exit(f(os.Args[2:]))
+		}
 		usage()
 	}
 }
@@ -61,7 +64,7 @@ func verifDir() string {
 }
 
 func refPkgs() []string {
-	return []string{core.RefMod + "/core/vm", core.RefMod + "/trie", core.RefMod + "/rlp", core.RefMod + "/core/state"}
+	return []string{core.RefMod + "/core/vm", core.RefMod + "/trie", core.RefMod + "/rlp", core.RefMod + "/core/state", core.RefMod + "/core/vm/runtime", core.RefMod + "/params", core.RefMod + "/core"}
 }
 
 // loadFor loads the program once for a set of properties.
